@@ -30,6 +30,8 @@ class Store:
         self.heads: dict[str, int] = {}
         self.last_get: dict[str, Variant] = {}  # what the most recent GET of a blob was answered with
         self.order: list[str] = []  # blob ids in order of first PUT
+        self.mutator: Callable[[bytes, str | None], Variant] | None = None
+        self.orig: dict[str, Variant] = {}
         self._lock = threading.Lock()
         placeholder: Any = lambda environ, start_response: [b""]  # noqa: E731
         self._server = make_server("127.0.0.1", 0, placeholder, handler_class=fs._SilentHandler)
@@ -55,6 +57,18 @@ class Store:
                     if method == "HEAD":
                         # fetch_url probes with HEAD before every GET (non-presigned URL): a HEAD opens an attempt
                         self.heads[blob_id] = self.heads.get(blob_id, 0) + 1
+                    if script is None and self.mutator is not None and method == "HEAD":
+                        # storage-side corruption of everything that is fetched (end-to-end scenarios)
+                        if blob_id not in self.orig:
+                            self.orig[blob_id] = self.blobs.get(blob_id)
+                        v0 = self.orig[blob_id]
+                        if v0 is not None:
+                            v1 = self.mutator(v0[0], v0[1])
+                            with self.blobs._lock:
+                                if v1 is None:
+                                    self.blobs._blobs.pop(blob_id, None)
+                                else:
+                                    self.blobs._blobs[blob_id] = (v1[0], v1[1])
                     if script is not None:
                         k = min(max(self.heads.get(blob_id, 1) - 1, 0), len(script) - 1)
                         v = script[k]
